@@ -65,7 +65,7 @@ def _cache_helper_mode(facts, rep, ev, fl, blocks, var, outfn):
         news = [bb for bb, ht in h.calls() if callee_name(ht) == "random::Prf::new" and not h.is_cleanup(bb)]
         if not ents or not news:
             continue
-        hfl = Flow(facts, h)
+        hfl = Flow(facts, h, {"data_values::Value::access_bytes": [0]})
         # (1) the Prf is built from the key the entry is looked up with
         ent_or = set()
         for e in ents:
